@@ -120,7 +120,7 @@ m = {
     'engines': [{'name': 'coq', 'path': '/verif/coq', 'serves_properties': sorted(claimed),
                  'kind_free_text': 'Coq 8.16.1 development (Base, Gen regenerated by tr/, Model, Proofs, Props) + Python correspondence harness (harness/) evaluating the model by vm_compute in generated cases.v files'}],
     'checks': checks,
-    'notes': 'fix: commits in /repo and pinned findings are listed in known_findings.json and DESIGN.md section 8.',
+    'notes': 'fix: commits in /repo and pinned findings are listed in known_findings.json and DESIGN.md section 0.2.',
     'not_applicable': [{'property_id': p['id'],
                         'reason': 'not claimed yet: the check exists or is under construction but Props/%s.v has no proved theorems at this commit (see DESIGN.md section 7)' % p['id']}
                        for p in props if p['id'] not in claimed],
